@@ -59,7 +59,20 @@ func (p *Prog) inlineNewHelpers() {
 			}
 		}
 	}
+	dc := &declosurer{in: in, methods: in.newMethods()}
+	if len(dc.methods) > 0 {
+		for _, pk := range p.sortedMod() {
+			for _, f := range pk.Syntax {
+				for _, d := range f.Decls {
+					if fd, ok := d.(*ast.FuncDecl); ok && fd.Body != nil {
+						in.done += dc.declosure(pk.TypesInfo, pk.Types, fd)
+					}
+				}
+			}
+		}
+	}
 	if len(in.decls) == 0 {
+		p.Inlined = in.done
 		return
 	}
 	for round := 0; round < 4; round++ {
@@ -489,6 +502,8 @@ type cloner struct {
 	subst  map[types.Object]ast.Expr
 	fresh  map[types.Object]types.Object // callee-local variable -> this copy's variable
 	lo, hi token.Pos                     // the callee declaration
+	sel    func(*ast.SelectorExpr) (ast.Expr, bool) // optional: replacement for a selector expression (declosure.go)
+	ident  func(*ast.Ident)                         // optional: told about every identifier copied as such
 }
 
 // renew maps a variable declared inside the callee to a variable of this copy (created on first sight).
@@ -525,11 +540,20 @@ func (cl *cloner) node(v reflect.Value) reflect.Value {
 		switch n := v.Interface().(type) {
 		case *ast.Object, *ast.Scope:
 			return reflect.Zero(v.Type())
+		case *ast.SelectorExpr:
+			if cl.sel != nil {
+				if a, ok := cl.sel(n); ok {
+					return reflect.ValueOf(a)
+				}
+			}
 		case *ast.Ident:
 			if o := cl.info.Uses[n]; o != nil {
 				if a, ok := cl.subst[o]; ok {
 					return reflect.ValueOf(a)
 				}
+			}
+			if cl.ident != nil {
+				cl.ident(n)
 			}
 			id := &ast.Ident{NamePos: n.NamePos, Name: n.Name}
 			if o := cl.info.Uses[n]; o != nil {
